@@ -388,7 +388,15 @@ func CheckMain(args []string) int {
 	for _, l := range violations {
 		fmt.Println(l)
 	}
-	for _, l := range inconclusive {
+	inconclusive = uniq(inconclusive)
+	for i, l := range inconclusive {
+		if i >= 12 {
+			fmt.Printf("INCONCLUSIVE: … and %d more (see evidence file)\n", len(inconclusive)-i)
+			break
+		}
+		if len(l) > 1800 {
+			l = l[:1800] + "…"
+		}
 		fmt.Println("INCONCLUSIVE:", l)
 	}
 	wall := time.Since(start).Seconds()
